@@ -19,7 +19,7 @@ def derive_seed(*parts) -> int:
 
 
 class Tape:
-    __slots__ = ('rng', 'replay', 'pos', 'values', 'labels', 'seed', 'exhausted_draws')
+    __slots__ = ('rng', 'replay', 'pos', 'values', 'labels', 'seed', 'exhausted_draws', 'sink')
 
     def __init__(self, seed=None, replay=None):
         self.seed = seed
@@ -29,6 +29,7 @@ class Tape:
         self.values = []
         self.labels = []
         self.exhausted_draws = 0
+        self.sink = None  # optional callable() invoked after every draw (crash re-runs stream the tape)
 
     def draw(self, n: int, label: str = '') -> int:
         """An integer in [0, n)."""
@@ -46,6 +47,8 @@ class Tape:
             self.pos += 1
         self.values.append(v)
         self.labels.append(label)
+        if self.sink is not None:
+            self.sink()
         return v
 
     def chance(self, num: int, den: int, label: str = '') -> bool:
